@@ -124,7 +124,9 @@ def run_config(pid, hname, cfg, tier, seed, opts):
             W.notes['exception'] = ''.join(traceback.format_exception_only(type(val), val)).strip()[:300]
             W.notes['tb'] = ''.join(traceback.format_tb(val.__traceback__)[-3:])[-600:]
         if c.unknown_branch:
-            res['inconclusive'].append({'why': 'unknown-branch', 'n': c.unknown_branch})
+            # a branch whose feasibility z3 could not decide is explored anyway (over-approximation: a spurious path can only
+            # yield candidates that the replay on the real code filters out); counted, not inconclusive
+            res['unknown_branches'] = res.get('unknown_branches', 0) + c.unknown_branch
         for name, status, detail in W.obs:
             res['obligations'] += 1
             if status.startswith('unsat'):
